@@ -347,13 +347,15 @@ Definition env_steps (s : sys) (es : list env) : sys := fold_left env_step es s.
 (* what a method proposes, given the mapping built just before *)
 Inductive choice :=
 | ChK (k : nat)                                   (* multi: length of the consolidated prefix *)
-| ChStatic (groups : list (Z * pool_counts)).     (* static drift: NodePoolState counts per pool *)
+| ChStatic (groups : list (Z * pool_counts))      (* static drift: NodePoolState counts per pool *)
+| ChSkip.                                         (* the method short-circuits (IsConsolidated cache, timeout, an error): no command *)
 
 Definition cands_of_pool (p : Z) (cs : list cand) : list cand := filter (fun c => c_pool c =? p) cs.
 
 Definition propose (s : sys) (m : method) (cs : list cand) (ch : choice) : list cand :=
   let mp := mapping_of s (method_reason m) in
   match m, ch with
+  | _, ChSkip => []
   | MEmptiness, _ => emptiness_select mp cs
   | MMulti, ChK k => multi_select mp cs k
   | MSingle, _ => one_if_budget mp cs
@@ -413,6 +415,8 @@ Inductive op :=
            (vok : bool)                                  (* choice: validateCommand's re-simulation agrees *)
            (between : list env) (cur1 : list cand)       (* 15 s later: first validateCandidates *)
            (between2 : list env) (cur2 : list cand)      (* consolidation re-validates once more *)
+           (startfail : list Z)                          (* fault: candidates StartCommand could not mark (all of
+                                                            them when the replacement launch fails) *)
 | OComplete (ids : list Z) (ok : bool)     (* Queue.Reconcile finishes a command *)
 | ORestart.                                (* process restart: queue and marks are lost *)
 
@@ -442,8 +446,9 @@ Definition disrupt_sel (s : sys) (m : method) (cs : list cand) (ch : choice) (vo
 Definition step (s : sys) (o : op) : sys :=
   match o with
   | OEnv e => env_step s e
-  | ODisrupt m cs ch vok b1 c1 b2 c2 =>
-      let '(sel, s') := disrupt_sel s m cs ch vok b1 c1 b2 c2 in start_command s' sel
+  | ODisrupt m cs ch vok b1 c1 b2 c2 startfail =>
+      let '(sel, s') := disrupt_sel s m cs ch vok b1 c1 b2 c2 in
+      start_command s' (filter (fun c => negb (existsb (Z.eqb (c_node c)) startfail)) sel)
   | OComplete ids ok =>
       let q := filter (fun i => negb (existsb (Z.eqb i) ids)) (s_queue s) in
       if ok then
@@ -502,6 +507,6 @@ Arguments env_step {sid} _ _.
 Arguments env_steps {sid} _ _.
 Arguments start_command {sid} _ _.
 Arguments OEnv {sid} _.
-Arguments ODisrupt {sid} _ _ _ _ _ _ _ _.
+Arguments ODisrupt {sid} _ _ _ _ _ _ _ _ _.
 Arguments OComplete {sid} _ _.
 Arguments ORestart {sid}.
